@@ -6,12 +6,13 @@
 (* mechanism transcription against the same clauses.                                   *)
 EXTENDS Integers, Sequences, FiniteSets, TLC
 
-Probes == {"p1", "p2", "p3", "p4", "p5", "p6", "p7", "p8", "p9", "p10", "p11", "q2", "bad", "bad2", "bad3"}
+Probes == {"p1", "p2", "p3", "p4", "p5", "p6", "p7", "p8", "p9", "p10", "p11", "p12", "p13", "q2", "bad", "bad2", "bad3"}
 \* bad = 'f > zzz' (no such variable), bad2 = 'g > #nope' (no such meta-variable): refused with a selector error;
 \* bad3 = 'f > lam > a' where lam is a lambda: refused with a type error AFTER f, the first function of the path, was tooled
 Valid(p) == p \notin {"bad", "bad2", "bad3"}
 RefusalClass(p) == IF p = "bad3" THEN "TypeError" ELSE "SelectorError"
-Fns == {"f", "g"}
+\* h1, h2: two closures made by one def (one code object, two function objects): p12 = 'h1 > a', p13 = 'h2 > a'
+Fns == {"f", "g", "h1", "h2"}
 \* functions a probe's selector names (they are instrumented while the probe is active)
 \* p10 = Probe('f > a', 'f(!a)'): one probe given the same selector twice, in two spellings (one interned object)
 \* q2 = a plain overlay (no probing(), hence no tooling of its own) tapping 'f > b' on functions that were tooled in place
@@ -19,11 +20,13 @@ Fns == {"f", "g"}
 Touches(p) == CASE p = "q2" -> {} [] p \in {"p1", "p2", "p5", "p7", "p8", "p9", "p10", "p11", "bad", "bad3"} -> {"f"}
                 [] p \in {"p3", "p6"} -> {"f", "g"}
                 [] p \in {"p4", "bad2"} -> {"g"}
+                [] p = "p12" -> {"h1"} [] p = "p13" -> {"h2"}
 
 \* lifeworld: f(x): a = x+1; b = 2a; c: @T = x; c = c+1; r = g(b); return r      g(y): a = y+100; return a
 \* p7 = 'f > c:@T' (only the annotated binding of c), p8 = 'f > c' (both bindings),
 \* p9 = 'f(a as ta)' in total mode whose listener raises KeyError for ta = 13 (the call f(12))
-RetOf(fn, v) == IF fn = "f" THEN 2 * v + 102 ELSE v + 100
+\*            mk(k): def h(z): a = z + k; return a         h1 = mk(1000), h2 = mk(2000)
+RetOf(fn, v) == CASE fn = "f" -> 2 * v + 102 [] fn = "g" -> v + 100 [] fn = "h1" -> v + 1000 [] fn = "h2" -> v + 2000
 \* events (records as sets of <<key, value>>) that one call owes to probe p, in order
 EventsOf(p, fn, v) ==
   CASE p = "p1" /\ fn = "f" -> << {<<"a", v + 1>>} >>
@@ -38,6 +41,8 @@ EventsOf(p, fn, v) ==
     [] p = "p9" /\ fn = "f" -> << {<<"ta", v + 1>>} >>
     [] p = "p11" /\ fn = "f" -> << {<<"v", v>>} >>                    \* 'f > $v:@T': the annotated binding of c, through its tag only
     [] p = "p10" /\ fn = "f" -> << {<<"a", v + 1>>}, {<<"a", v + 1>>} >>        \* once per selector the probe was given
+    [] p = "p12" /\ fn = "h1" -> << {<<"a", v + 1000>>} >>
+    [] p = "p13" /\ fn = "h2" -> << {<<"a", v + 2000>>} >>
     [] OTHER -> <<>>
 
 \* a listener that raises: the exception reaches the caller of the probed function, nothing else changes
